@@ -1,6 +1,42 @@
-(* C01 property theorems (filled in below as the proofs land). *)
-From Coq Require Import ZArith List.
-From Kenlm Require Import LM.Defs LM.Query.
-Theorem C01_placeholder_spec_hit : forall N M ctx w p b, M (w :: firstn (usable N ctx) ctx) = Some (p, b) ->
-  bo_score N M ctx w = p.
-Proof. intros N M ctx w p b H. unfold bo_score. destruct (usable N ctx); simpl in *; rewrite H; reflexivity. Qed.
+(* C01 -- query scores follow the ARPA back-off definition in every data structure.
+   The theorems are about the executable model of lm/model.cc (LM/Query.v) over ANY table that satisfies the
+   invariants TInv the loaders establish (LM/QueryProofs.v): suffix closure with blanks, sound left-extension and
+   extension bits, stored value = back-off recursion of the ARPA file M, context closure.  Both lookup kinds
+   (probing, trie -- they differ in FastMakeNode) are covered by the parameter K. *)
+From Coq Require Import ZArith List Bool.
+From Kenlm Require Import LM.Defs LM.Query LM.QueryProofs.
+Import ListNotations.
+Local Open Scope Z_scope.
+
+(* FullScoreForgotState(history, w).prob = the ARPA recursion, for every history (any length) and every word *)
+Theorem C01_forgot_state_spec : forall N T M K, (2 <= N)%nat -> TInv N T M ->
+  forall ctx w, T [w] <> None ->
+  r_prob (fst (full_score_forgot N T K ctx w)) = bo_score N M ctx w.
+Proof. intros N T M K HN I ctx w Hw. exact (forgot_prob N HN T M K I ctx w Hw). Qed.
+
+(* Left-to-right scoring of a whole word sequence from ANY valid state (null context, <s>, or a state produced
+   by earlier scoring): every probability is the ARPA recursion over the full history. *)
+Theorem C01_full_score_spec : forall N T M, (2 <= N)%nat -> TInv N T M ->
+  forall ws s h, valid N T M s h -> (forall w, In w ws -> T [w] <> None) ->
+  fst (score_seq N T s ws) = spec_seq N M h ws.
+Proof. intros N T M HN I ws s h V Hin. eapply (proj1 (score_seq_spec N HN T M I ws s h V Hin)). Qed.
+
+Theorem C01_null_and_bos_states_valid : forall N T M b, (2 <= N)%nat ->
+  valid N T M null_state [] /\ valid N T M (bos_state T b) [b].
+Proof. intros N T M b HN. split; [apply valid_null|apply valid_bos]; exact HN. Qed.
+
+(* When the file contains every suffix of its n-grams (no entry had to be invented: M k = None -> T k = None),
+   the reported matched length is the length of the longest listed n-gram ending in w. *)
+Theorem C01_matched_length : forall N T M, (2 <= N)%nat -> TInv N T M ->
+  (forall k, M k = None -> T k = None) ->
+  forall s h w, valid N T M s h -> T [w] <> None ->
+  r_len (fst (full_score N T s w)) = bo_length N M h w.
+Proof. intros N T M HN I Hc s h w V Hw. eapply full_score_length; eassumption. Qed.
+
+(* independent_left is set exactly when no stored n-gram extends the match to the left, given the context that
+   was supplied (the next supplied context word if there is one, any word otherwise). *)
+Theorem C01_independent_left : forall N T M, (2 <= N)%nat -> TInv N T M ->
+  forall ctx w, T [w] <> None -> (length ctx <= N - 1)%nat ->
+  (r_indep (fst (score_except_backoff N T ctx w)) = true <->
+   no_left_extension T ctx w (r_len (fst (score_except_backoff N T ctx w)))).
+Proof. intros N T M HN I ctx w Hw Hl. eapply indep_left_spec; eassumption. Qed.
